@@ -184,8 +184,10 @@ func (g *Gen) oblige(kind, detail, tag string, props []string, safety bool, cond
 	g.curPos++
 	o := &Obl{Fn: g.key, Name: name, Kind: kind, Tag: tag, Props: props, Safety: safety, blk: g.curBlk, pos: g.curPos, cond: cond, SrcPos: g.P.posString(pos), g: g}
 	g.obls = append(g.obls, o)
-	// later code may rely on it
-	g.guard(cond)
+	// later code may rely on it (terminal obligations at a return are independent of each other)
+	if kind != "post" && kind != "frame" {
+		g.guard(cond)
+	}
 	return o
 }
 
@@ -1068,7 +1070,9 @@ func (g *Gen) loopHead(b *ssa.BasicBlock, pass1 map[int]map[string]bool) {
 			"(>= "+g.phiInit[ab.phi]+" "+g.v(ab.init)+")", b.Instrs[0].Pos())
 	}
 	for i, cl := range invs {
-		g.oblige("inv-init", fmt.Sprintf("loop%d", g.headOrd[h]), clTag(cl, i), cl.Props, false, g.transBool(cl.E, envInit), ab0pos(b))
+		for k, cj := range conjuncts(cl.E) {
+			g.oblige("inv-init", fmt.Sprintf("loop%d", g.headOrd[h]), cjTag(clTag(cl, i), k, cl.E), cl.Props, false, g.transBool(cj, envInit), ab0pos(b))
+		}
 	}
 	// havoc
 	if pass1 != nil {
@@ -1142,7 +1146,9 @@ func (g *Gen) backEdge(p, head *ssa.BasicBlock) {
 			"(>= "+val+" "+g.v(ab.init)+")", ab0pos(head))
 	}
 	for i, cl := range invs {
-		g.obligeEdge(p, head, "inv-keep", fmt.Sprintf("loop%d", g.headOrd[h]), clTag(cl, i), cl.Props, false, g.transBool(cl.E, env), ab0pos(head))
+		for k, cj := range conjuncts(cl.E) {
+			g.obligeEdge(p, head, "inv-keep", fmt.Sprintf("loop%d", g.headOrd[h]), cjTag(clTag(cl, i), k, cl.E), cl.Props, false, g.transBool(cj, env), ab0pos(head))
+		}
 	}
 	// decreases
 	if g.ctr != nil {
